@@ -13,15 +13,23 @@ def Status.entry : Status → String × Nat
   | .errored => ("errored", 3)
   | .killed => ("killed", 4)
 
+/-- `.reindex` stands for the whole range `[begin_reindex_, end_reindex_)` -/
 def Order.entry : Order → String × Nat
   | .none => ("none", 0)
   | .initCharge => ("init_charge", 1)
+  | .reindex => ("begin_reindex_", 2)
 
 def allStatus : List Status := [.inactive, .initializing, .alive, .errored, .killed]
-def allOrder : List Order := [.none, .initCharge]
+def allOrder : List Order := [.none, .initCharge, .reindex]
 
 /-- enumerators of `TrackStatus` that are range sentinels, not statuses -/
 def isSentinel (p : String × Nat) : Bool := p.1 == "begin_dying_" || p.1 == "size_"
+
+/-- enumerators of `TrackOrder` that are range sentinels -/
+def isOrderSentinel (p : String × Nat) : Bool :=
+  p.1 == "begin_layout_" || p.1 == "end_layout_" || p.1 == "begin_reindex_" ||
+  p.1 == "begin_reindex_action_" || p.1 == "end_reindex_action_" || p.1 == "end_reindex_" ||
+  p.1 == "size_"
 
 /-- value of a named enumerator in a regenerated table -/
 def valueOf (t : List (String × Nat)) (name : String) : Option Nat :=
